@@ -44,12 +44,21 @@ def build_list(rng, tr):
     pats = []
     need = set()
     n = rng.randint(1, 4)
+    use_abs = rng.random() < 0.15
+    if use_abs:
+        n = max(n, 2)
     while len(singles) < n:
         text = gen.ser(gen.tree_pattern(rng, ents, ext=True, globstar=True, maxseg=3))
         if not text or text.startswith('/'):
             continue
+        is_abs = False
+        if use_abs and rng.random() < 0.5:
+            # an absolute pattern among relative ones: each keeps its own base, whatever their order
+            text = G.escape(tr.root) + '/' + text
+            is_abs = True
+            need.add('_ABS')
         group = [text]
-        r = rng.random()
+        r = rng.choice((0.1, 0.5, 0.9, 0.9)) if is_abs else rng.random()
         if r < 0.2:
             group.append(text)                      # identical
         elif r < 0.4:
@@ -68,7 +77,8 @@ def build_list(rng, tr):
             need.add('SPLIT')
         singles.extend(group)
     excl = []
-    for _ in range(rng.choice((0, 0, 1, 1, 2))):
+    # (whether a relative exclusion applies to the absolute results of an absolute pattern is not stated: no exclusions then)
+    for _ in range(rng.choice((0, 0, 1, 1, 2)) if not use_abs else 0):
         e = gen.ser(gen.tree_pattern(rng, ents, ext=True, globstar=True, maxseg=2))
         if e and not e.startswith('/'):
             excl.append(e)
@@ -85,6 +95,8 @@ def excluded(path, root, excl, base_flags):
 
 def check_list(ctx, tr, rng, k, j):
     pats, singles, excl, need = build_list(rng, tr)
+    has_abs = '_ABS' in need
+    need.discard('_ABS')
     fn = ['EXTGLOB'] + sorted(need) + [f for f in OPT if rng.random() < 0.28]
     if 'CASE' in fn and 'IGNORECASE' in fn and rng.random() < 0.5:
         fn.remove('CASE')
@@ -155,7 +167,7 @@ def check_list(ctx, tr, rng, k, j):
             ctx.disagree('NOUNIQUE result is not the concatenation of the single-pattern results in pattern order',
                          dict(wit, expected=concat[:30], result=res[:30]))
     # the same through pathlib
-    if j % 3 == 0 and not any(p.startswith('/') for p in api_pats):
+    if j % 3 == 0 and not has_abs and not any(p.startswith('/') for p in api_pats):
         pflags = flags & PATHLIB_MASK | (WP.SCANDOTDIR if 'SCANDOTDIR' in fn else 0)
         try:
             pres = [str(p) for p in WP.Path(root).glob(api_pats, flags=pflags, **kw)]
